@@ -139,6 +139,14 @@ Theorem C16_serializer_cyclic_example : serializer_ok (serialize_top h_cyc 0) /\
 Proof. exact h_cyc_ok. Qed.
 Print Assumptions C16_serializer_cyclic_example.
 
+(* NOT PROVED (statement kept visible): the serialiser on the cyclic heaps that work.
+     Theorem C16_serializer_cyclic : forall h, containers_ranked h = true -> no_sdata h = true -> scalars_ok h = true ->
+       forall r, serializer_ok (ser (budget h) h true [] r).
+   where containers_ranked = every list / dict stores only smaller indices while SFwd objects may point
+   anywhere (arbitrary cycles through dataclass attributes).  Missing: a lexicographic termination
+   measure (number of SFwd objects not in [visited], then the index) and a quadratic budget (a chain of
+   up to |h| containers may sit between two dataclass visits) instead of fuel_for's linear one. *)
+
 (* F16d (fixed): the old witness — a dict holding a forward-reference dataclass that holds another
    instance — now serialises to plain JSON without null-valued keys. *)
 Theorem C16_regression_F16d :
